@@ -236,6 +236,7 @@ def run(prog, rep, tier, repo):
             ok = len(rets) == 1 and tag(rets[0]) == 'call' and rets[0][1] == U + 'dot' and _is_vdata_of(rets[0][2][0], me_) and _is_vdata_of(rets[0][2][1], other)
             (rep.ok if ok else rep.viol)('dot', key, '%s: dot(self.data, other.data)' % name if ok else '%s is %s' % (name, [show(r) for r in rets]), site_of(b))
     rep.floor('dot', 64, '16 Dot impls x 4 methods')
+    _dot_shapes(prog, rep)
     rep.info('dot', 'dot:counts', 'matrix.matrix %(mm)d, matrix.vector %(mv)d, vector.matrix %(vm)d, vector.vector %(vv)d' % n)
     # t_mut / to_matrix semantics used above are C15's (matrix-invariant, promotion)
     return {}
@@ -289,3 +290,69 @@ def _strip_copies(t):
     while tag(t) == 'call' and short(t[1]) in ('to_owned', 'clone', 'deref', 'borrow') and t[2]:
         t = t[2][0]
     return t
+
+
+def _dot_shapes(prog, rep):
+    """Matrix . Matrix, decided on exact shape witnesses (all shapes 1..3 x 1..3 for both operands): whatever return site a method takes
+    for a conformable pair -- the product itself, or a shortcut for a special operand -- the Matrix it returns has the shape the
+    definition gives (dot: r1 x c2, t_dot: c1 x c2, dot_t: r1 x r2, t_dot_t: c1 x r2).  The branch conditions and the shape of the
+    returned value are read through the helpers by the witness evaluator; a site whose shape cannot be read decides nothing."""
+    from ..precond import NC, Frame, tev, Uneval, _nk
+    import itertools
+    pdb = prog.pdb
+    ncx = NC(prog, max_depth=4)
+    want = {'dot': (lambda a, b: (a[0], b[1]), lambda a, b: a[1] == b[0]), 't_dot': (lambda a, b: (a[1], b[1]), lambda a, b: a[0] == b[0]),
+            'dot_t': (lambda a, b: (a[0], b[0]), lambda a, b: a[1] == b[1]), 't_dot_t': (lambda a, b: (a[1], b[0]), lambda a, b: a[0] == b[1])}
+    n = 0
+    for k, b in sorted(pdb.bodies.items()):
+        if not (b.impl and b.impl['trait'] and b.impl['trait'].startswith('linalg::array::dot::Dot<')) or b.name not in want:
+            continue
+        m = re.match(r'linalg::array::dot::Dot<(.*), (.*)>$', b.impl['trait'])
+        if not (b.impl['self_ty'].endswith('Matrix') and m.group(1).endswith('Matrix')):
+            continue
+        f = prog.func(k)
+        if f is None:
+            continue
+        n += 1
+        key = 'dot-shape:%s' % k
+        shape_of, conformable = want[b.name]
+        bad = None
+        read = 0
+        for r1, c1, r2, c2 in itertools.product((1, 2, 3), repeat=4):
+            if not conformable((r1, c1), (r2, c2)):
+                continue
+            env = {}
+            for ai, (r, c) in ((1, (r1, c1)), (2, (r2, c2))):
+                a = ('arg', ai, None)
+                env[_nk(('field', a, 1, None))] = r
+                env[_nk(('field', a, 2, None))] = c
+                env[_nk(('len', ('field', a, 0, None)))] = r * c
+                env[_nk(('len', ('field', ('field', a, 0, None), 0, None)))] = r * c
+            ctx = Frame(f, env=env, ncx=ncx)
+            live = ncx.reachable(f, ctx)
+            sites = [d for d in f._defs.get(0, []) if d[1] in live]
+            if len(sites) != 1:
+                continue
+            d = sites[0]
+            rt = f.rvalue_term(d[3], d[1]) if d[0] == 'assign' else f.call_term(d[2], d[1])
+            try:
+                got = (tev(('field', rt, 1, None), ctx), tev(('field', rt, 2, None), ctx))
+            except Uneval:
+                continue
+            except RecursionError:
+                continue
+            read += 1
+            exp = shape_of((r1, c1), (r2, c2))
+            if got != exp:
+                bad = ((r1, c1), (r2, c2), got, exp, show(rt)[:70])
+                break
+        for kk in ncx.visited:
+            rep.touch(kk)
+        if bad:
+            rep.viol('dot-shape', key, '%s of a %dx%d and a %dx%d matrix returns %s, a %dx%d matrix; the product is %dx%d' % (
+                b.name, bad[0][0], bad[0][1], bad[1][0], bad[1][1], bad[4], bad[2][0], bad[2][1], bad[3][0], bad[3][1]), site_of(b))
+        elif read:
+            rep.ok('dot-shape', key, 'shape of the returned matrix agrees with the definition on %d conformable shape witnesses' % read)
+        else:
+            rep.undecided('dot-shape', key, 'shape of the returned value not read on any witness', site_of(b), proof=False)
+    rep.floor('dot-shape', 16, 'Matrix . Matrix impls x 4 methods')
